@@ -208,7 +208,21 @@ def F23():
     return bad > 0
 
 
-ALL = ['F1', 'F2', 'F4', 'F5', 'F6', 'F8', 'F9', 'F11', 'F12', 'F13', 'F15', 'F16', 'F17', 'F18', 'F19', 'F20', 'F21', 'F22', 'F23']
+def F24():
+    """Gumbel quantile at the corner of C08's range: the root lies below the lower bracket end EPSILON."""
+    from copulas.bivariate import Gumbel
+    import warnings
+    warnings.filterwarnings('ignore')
+    c = Gumbel()
+    c.tau, c.theta = 0.8, 5.0
+    try:
+        c.percent_point(np.array([1e-4]), np.array([1e-4]))
+    except ValueError as exc:
+        return 'different signs' in str(exc)
+    return False
+
+
+ALL = ['F1', 'F2', 'F4', 'F5', 'F6', 'F8', 'F9', 'F11', 'F12', 'F13', 'F15', 'F16', 'F17', 'F18', 'F19', 'F20', 'F21', 'F22', 'F23', 'F24']
 if __name__ == '__main__':
     for name in (sys.argv[1:] or ALL):
         try:
